@@ -1,3 +1,65 @@
-import GoldilocksVerif.Model.Ntt
+/-
+  C19 — "For every sequence of forward, inverse and extension calls with differing sizes, column counts and phase/block
+  settings issued on one transform object (each size within its maximum domain), every call returns exactly what a freshly
+  constructed object returns for the same arguments. Earlier calls never change later results."
+
+  Statement about the hand model `Model/Ntt.lean` (tied to the code by the correspondence campaign of `./check C19`):
+  `runCalls o cs` threads ONE object through the history `cs`; `Call.run o c` is call `c` on the object `o`.
+  The theorems hold for EVERY history, every argument (also out-of-range ones: aborts are results too).
+-/
+import GoldilocksVerif.Lemmas.NttObj
+
 namespace GoldilocksVerif.C19
+open GoldilocksVerif.Model.Ntt
+
+/-- a freshly constructed object has no shift-power cache -/
+theorem C19_constructed_without_cache (maxDomainSize extension : Nat) (o : Obj)
+    (h : mkObj maxDomainSize extension = some o) : o.rcache = none :=
+  mkObj_fresh _ _ o h
+
+/-- C19: on a freshly constructed object, the k-th result of ANY history of NTT / INTT / extendPol calls is exactly the
+    result of the same call issued on the fresh object. -/
+theorem C19_history_eq_fresh (maxDomainSize extension : Nat) (o : Obj) (h : mkObj maxDomainSize extension = some o)
+    (cs : List Call) : runCalls o cs = cs.map (fun c => (c.run o).2) := by
+  have hf := mkObj_fresh _ _ o h
+  have := runCalls_base cs o (wf_of_fresh o hf)
+  rw [base_of_fresh o hf] at this
+  exact this
+
+/-- the same from any reachable object state (any prefix history already executed): later results are those of the fresh
+    object `o.base` (= `o` with the cache dropped) -/
+theorem C19_history_after_prefix (maxDomainSize extension : Nat) (o : Obj) (h : mkObj maxDomainSize extension = some o)
+    (pre cs : List Call) : (runCalls o (pre ++ cs)).drop pre.length = cs.map (fun c => (c.run o).2) := by
+  rw [C19_history_eq_fresh _ _ o h]
+  simp
+
+/-- NTT and INTT never modify the object -/
+theorem C19_ntt_intt_leave_object (o : Obj) (mode : DstMode) (dstB srcB : Buf) (size ncols nphase nblock : Nat) :
+    ((Call.ntt mode dstB srcB size ncols nphase nblock).run o).1 = o ∧
+    ((Call.intt mode dstB srcB size ncols nphase nblock).run o).1 = o := ⟨rfl, rfl⟩
+
+/-- the only state a call can change is the cache, and the cache keeps its invariant -/
+theorem C19_only_cache_changes (o : Obj) (h : o.wf) (c : Call) : (c.run o).1.base = o.base ∧ (c.run o).1.wf :=
+  ⟨(Call.run_base o h c).2.2, (Call.run_base o h c).2.1⟩
+
+/-- NTT / INTT results do not depend on the cache content at all -/
+theorem C19_ntt_ignores_cache (o : Obj) (cache : Option (Nat × Array W × Array W)) (mode : DstMode) (dstB srcB : Buf)
+    (size ncols nphase nblock : Nat) (inverse : Bool) :
+    ntt (setCache o cache) mode dstB srcB size ncols nphase nblock inverse false
+      = ntt o mode dstB srcB size ncols nphase nblock inverse false :=
+  ntt_setCache o cache mode dstB srcB size ncols nphase nblock inverse
+
+/-- extendPol returns the same buffer (and leaves the same object) whatever cache an earlier extendPol call left -/
+theorem C19_extendPol_ignores_cache (o : Obj) (h : o.wf) (same : Bool) (outB inB : Buf) (nExt n ncols nphase nblock : Nat) :
+    extendPol o same outB inB nExt n ncols nphase nblock = extendPol o.base same outB inB nExt n ncols nphase nblock :=
+  extendPol_base o h same outB inB nExt n ncols nphase nblock
+
+/-- non-vacuity: objects exist, extendPol does change the cache, and a second extendPol with another N replaces it -/
+example : (mkObj 8 1).isSome = true := by decide +kernel
+example : ∃ o, mkObj 8 1 = some o ∧
+    (((Call.extendPol false (Array.replicate 4 0#64) #[1#64, 2#64] 4 2 1 3 1).run o).1.rcache.map (·.1)) = some 2 ∧
+    (((Call.extendPol false (Array.replicate 8 0#64) #[1#64, 2#64, 3#64, 4#64] 8 4 1 3 1).run
+        ((Call.extendPol false (Array.replicate 4 0#64) #[1#64, 2#64] 4 2 1 3 1).run o).1).1.rcache.map (·.1)) = some 4 := by
+  refine ⟨(mkObj 8 1).get (by decide +kernel), by simp, ?_, ?_⟩ <;> decide +kernel
+
 end GoldilocksVerif.C19
